@@ -35,9 +35,100 @@ def is_null_arg(n):
     return n.get('kind') == 'IntegerLiteral' and n.get('value') == '0'
 
 
+UPREF = {'EVP_PKEY_up_ref': 0}
+HANDLE_MUTATORS = ('EVP_PKEY_set', 'EVP_PKEY_assign', 'EVP_PKEY_copy_parameters', 'gnutls_privkey_deinit', 'gnutls_pubkey_deinit',
+                   'gnutls_x509_privkey_deinit')
+
+
+class SharedRefRule(Rule):
+    """Library handles stored in a shared key item (item->provider_data, the PEM text, the octets) are borrowed by sign/verify: a path may
+    release such a handle only after taking a reference of its own on it, and may not hand it to a call that mutates it."""
+    alloc_may_fail = False
+    lib_alloc_may_fail = False
+
+    def __init__(self, ko):
+        self.ko = ko
+        self.viol = []
+        self.calls = 0
+
+    def keep_event(self, ev):
+        return False
+
+    def shared(self, v):
+        if isinstance(v, Ref):
+            return v.loc == self.ko
+        if isinstance(v, Term):
+            k = v.k
+            while isinstance(k, tuple) and k and k[0] == 'mem':
+                if k[1] == self.ko:
+                    return True
+                k = k[1][1] if isinstance(k[1], tuple) and len(k[1]) > 1 and k[1][0] == 'term' else None
+        return False
+
+    def on_call(self, it, st, name, args, node):
+        from model import SPEC
+        m = SPEC.get(name)
+        if name in UPREF and len(args) > UPREF[name] and self.shared(args[UPREF[name]]):
+            refs = dict(st.ts.get('refs', ()))
+            refs[vkey(args[UPREF[name]])] = refs.get(vkey(args[UPREF[name]]), 0) + 1
+            st.ts['refs'] = tuple(sorted(refs.items(), key=repr))
+            return
+        fr = m.get('free') if isinstance(m, dict) else None
+        if fr is not None and len(args) > fr[1] and self.shared(args[fr[1]]):
+            self.calls += 1
+            refs = dict(st.ts.get('refs', ()))
+            k = vkey(args[fr[1]])
+            if refs.get(k, 0) > 0:
+                refs[k] -= 1
+                st.ts['refs'] = tuple(sorted(refs.items(), key=repr))
+            else:
+                self.viol.append((name, 'releases', node_loc(node)))
+        elif any(name.startswith(p_) for p_ in HANDLE_MUTATORS) and args and self.shared(args[0]):
+            self.viol.append((name, 'mutates', node_loc(node)))
+
+
+def check_shared_refs(chk, prog, env, model):
+    from props import c01
+    import summaries
+    eff = effects.Effects(prog)
+    n = 0
+    bad = 0
+    seen = set()
+    for field, kind in (('sign_sha_pem', 'pem'), ('verify_sha_pem', 'pem'), ('sign_sha_hmac', 'hmac'), ('verify_sha_hmac', 'hmac')):
+        for (unit, fn) in sorted(eff.ops_fields.get(field, ())):
+            if 'mbedtls' in unit:
+                continue
+            provider = unit.split('/')[1]
+            for alg_name in c01.ALGS:
+                scheme = c01.ALGS[alg_name][3]
+                if scheme == 'unsigned' or (scheme == 'hmac') != (kind == 'hmac'):
+                    continue
+                st, jwt, ko = c01.harness_state(env, alg_name, provider)
+                rule = SharedRefRule(ko)
+                it = Interp(prog, unit, model=model, rule=rule, hooks=dict(summaries.SUMMARIES), budget=600000)
+                if field.startswith('sign'):
+                    args = [Ref(jwt), Ref(('obj', 'out')), Ref(('obj', 'len')), Term(('str',), ptr=True), Term(('str_len',))]
+                else:
+                    args = [Ref(jwt), Term(('head',), ptr=True), Term(('head_len',)), Term(('sig',), ptr=True)] + \
+                           ([Term(('sig_len',))] if kind == 'pem' else [])
+                res = it.run(fn, args, st)
+                n += max(1, len(res))
+                for name, what, (f, l) in rule.viol:
+                    if (fn, name, l) in seen:
+                        continue
+                    seen.add((fn, name, l))
+                    bad += 1
+                    chk.add(Finding('C18.shared-handles', f or unit, fn, '%s[%s]' % (what, name),
+                                    '%s %s a handle that belongs to the shared key item (%s) on a path that holds no reference of its own on it: '
+                                    'other builders/checkers and the keyring still use it' % (fn, what, name), line=l))
+    chk.rule('C18.shared-handles', 'sign/verify routines of both providers, every algorithm, every path: a handle stored in the shared key item is '
+                                   'released only against a reference taken on the same path, and never passed to a mutating call', n, bad, floor=40)
+
+
 def run(chk, prog, tier):
     env = Env(prog)
     eff = effects.Effects(prog)
+    chk.guard('shared handles', check_shared_refs, chk, prog, env, build_model())
     roots = [eff.find('jwt_checker_verify', T.VARIANT_UNIT['checker']), eff.find('jwt_builder_generate', T.VARIANT_UNIT['builder'])]
     seen, parent = eff.reachable(roots)
     total = 0
